@@ -30,14 +30,14 @@ pub fn def() -> PropDef {
     PropDef {
         id: "C10",
         level: "fault_enumeration",
-        rule: "(A) the real acceptor (BobState::run over an in-memory duplex stream, backed by a real store actor) against a scripted initiator that owns a real replica and at every step chooses from {correct next frame, replay previous frame, Init again, Sync now, Abort(3 reasons), garbage frame with valid length, oversized length prefix, cut inside the next correct frame, close}: every script of <= d steps x accept callback {Allow, Reject(NotFound|AlreadySyncing|InternalServerError)}, and — wherever the acceptor has to end the session on its own (after a decline or after a frame that is an error for it) — the same script against a peer that keeps its stream open afterwards; (B) the real initiator (run_alice) against a scripted acceptor with the mirrored menu; (C) real initiator against real acceptor through a frame relay that injects one local fault {close the document, disable sync, shut the store actor down} on either side before its k-th incoming frame (and before the first outgoing one), for every k; oracle: both ends return Ok or Err within the deadline, no panic, BobState::into_outcome() callable after every outcome and the document of an accepted session still known (namespace()) so that its end can be reported, a declined request leaves the acceptor's store unchanged, a side whose document was closed / taken out of sync / whose actor was stopped before a frame it has to process reports an error, counters mirror when both ends return Ok; non-trivial = scenarios with at least one deviation from the correct protocol or one injected fault",
+        rule: "(A) the real acceptor (BobState::run over an in-memory duplex stream, backed by a real store actor) against a scripted initiator that owns a real replica and at every step chooses from {correct next frame, replay previous frame, Init again, Sync now, Abort(3 reasons), garbage frame with valid length, well-formed frame whose range bounds are record identifiers cut to 40 / 41 bytes, oversized length prefix, cut inside the next correct frame, close}: every script of <= d steps x accept callback {Allow, Reject(NotFound|AlreadySyncing|InternalServerError)}, and — wherever the acceptor has to end the session on its own (after a decline or after a frame that is an error for it) — the same script against a peer that keeps its stream open afterwards; (B) the real initiator (run_alice) against a scripted acceptor with the mirrored menu; (C) real initiator against real acceptor through a frame relay that injects one local fault {close the document, disable sync, shut the store actor down} on either side before its k-th incoming frame (and before the first outgoing one), for every k; oracle: both ends return Ok or Err within the deadline, no panic, the store actor of the side under test still answers after the session, BobState::into_outcome() callable after every outcome and the document of an accepted session still known (namespace()) so that its end can be reported, a declined request leaves the acceptor's store unchanged, a side whose document was closed / taken out of sync / whose actor was stopped before a frame it has to process reports an error, counters mirror when both ends return Ok; non-trivial = scenarios with at least one deviation from the correct protocol or one injected fault",
         assumptions: &[
             "deadlines are hang detectors only: a scenario that exceeds 5 s is re-run once with 50 s and must hang again to count",
             "the transport is an in-memory duplex stream; QUIC stream semantics (finish/stopped) are outside",
         ],
         bound: |t| match t {
-            Tier::Quick => json!({"A": "scripts <= 3 steps over 11 choices; rejects on scripts starting with a correct Init", "B": "scripts <= 3 steps over 10 choices", "C": "2 state pairs x 2 sides x 3 faults x every k"}),
-            Tier::Thorough => json!({"A": "scripts <= 4 steps", "B": "scripts <= 4 steps", "C": "4 state pairs x 2 sides x 3 faults x every k"}),
+            Tier::Quick => json!({"A": "scripts <= 3 steps over 12 choices; rejects on scripts starting with a correct Init", "B": "scripts <= 3 steps over 11 choices", "C": "2 state pairs x 2 sides x 3 faults x every k"}),
+            Tier::Thorough => json!({"A": "scripts <= 5 steps", "B": "scripts <= 5 steps", "C": "4 state pairs x 2 sides x 3 faults x every k"}),
         },
         run,
         replay,
@@ -58,9 +58,14 @@ pub enum Choice {
     Oversized,
     CutInside,
     Close,
+    /// a well-formed frame (Init before the handshake, Sync afterwards) whose reconciliation
+    /// message names a range by two record identifiers cut to 40 and 41 bytes (namespace id
+    /// plus a quarter of an author id): hostile, and must be an error, not a crash of the
+    /// store actor
+    ShortIds,
 }
 
-const ALICE_MENU: [Choice; 11] = [
+const ALICE_MENU: [Choice; 12] = [
     Choice::Correct,
     Choice::ReplayPrev,
     Choice::Init,
@@ -72,9 +77,10 @@ const ALICE_MENU: [Choice; 11] = [
     Choice::Oversized,
     Choice::CutInside,
     Choice::Close,
+    Choice::ShortIds,
 ];
 
-const BOB_MENU: [Choice; 10] = [
+const BOB_MENU: [Choice; 11] = [
     Choice::Correct,
     Choice::ReplayPrev,
     Choice::Init,
@@ -85,6 +91,7 @@ const BOB_MENU: [Choice; 10] = [
     Choice::Oversized,
     Choice::CutInside,
     Choice::Close,
+    Choice::ShortIds,
 ];
 
 #[derive(Debug, Clone, Copy, PartialEq, Eq, Serialize, Deserialize)]
@@ -143,6 +150,37 @@ fn spawn_actor(entries: &[Spec]) -> SyncHandle {
     let h = SyncHandle::spawn(sut.store, None, "c10".into());
     block_on(h.open(ns_id(0), OpenOpts::default().sync())).expect("open");
     h
+}
+
+/// Hand-assembled frame with record identifiers shorter than namespace id + author id.
+fn short_id_frame(init: bool) -> Vec<u8> {
+    use crate::mirror::{encode_message, RawPart};
+    let ns = ns_id(0).to_bytes();
+    let mut x = ns.to_vec();
+    x.extend_from_slice(&[1u8; 8]);
+    let mut y = ns.to_vec();
+    y.extend_from_slice(&[2u8; 9]);
+    let msg = encode_message(&[RawPart::Fingerprint { x, y, fp: [0u8; 32] }]);
+    let mut body = vec![];
+    if init {
+        body.push(0u8);
+        body.extend_from_slice(&ns);
+    } else {
+        body.push(1u8);
+    }
+    body.extend_from_slice(&msg);
+    let mut out = (body.len() as u32).to_be_bytes().to_vec();
+    out.extend_from_slice(&body);
+    // the hand-written layout must agree with the crate's encoder on a regular frame
+    thread_local! { static CHECKED: std::cell::Cell<bool> = const { std::cell::Cell::new(false) }; }
+    if !CHECKED.with(|c| c.replace(true)) {
+        let mut sut = Sut::memory_with(&[0]);
+        let real = encode(Frame::Init { namespace: ns_id(0), message: sut.sync_initial(ns_id(0)).expect("initial") });
+        assert!(real[4] == 0 && real[5..37] == ns, "MACHINERY: frame layout differs from the mirror");
+        let real = encode(Frame::Sync(sut.sync_initial(ns_id(0)).expect("initial")));
+        assert!(real[4] == 1, "MACHINERY: frame layout differs from the mirror");
+    }
+    out
 }
 
 fn encode(f: Frame) -> Vec<u8> {
@@ -245,6 +283,9 @@ struct Observed {
     accepted_session_without_namespace: bool,
     /// (initiator returned Ok, acceptor returned Ok) for real-vs-real scenarios
     both_ok: Option<(bool, bool)>,
+    /// after the session the store actor of the side under test no longer answers (its thread
+    /// died): the node is unusable although the session itself returned
+    actor_dead: bool,
 }
 
 const DEADLINE: Duration = Duration::from_secs(5);
@@ -309,6 +350,7 @@ async fn scenario_bob(script: &[Choice], accept: Accept, variant: u8, hold: bool
                     reason: AbortReason::InternalServerError,
                 })),
                 Choice::Garbage => Some(vec![0, 0, 0, 5, 0xff, 0xff, 0xff, 0xff, 0xff]),
+                Choice::ShortIds => Some(short_id_frame(!alice.inited)),
                 Choice::Oversized => {
                     Some(((verif_codec::MAX_MESSAGE_SIZE as u32) + 1).to_be_bytes().to_vec())
                 }
@@ -381,8 +423,18 @@ async fn scenario_bob(script: &[Choice], accept: Accept, variant: u8, hold: bool
             }
         }
     }
+    obs.actor_dead = !actor_alive(&handle).await;
     let _ = handle.shutdown().await;
     obs
+}
+
+/// The store actor still answers a request (no fault was injected in these scenarios, and the
+/// document was opened by `spawn_actor`).
+async fn actor_alive(handle: &SyncHandle) -> bool {
+    matches!(
+        tokio::time::timeout(Duration::from_secs(2), handle.get_state(ns_id(0))).await,
+        Ok(Ok(_))
+    )
 }
 
 /// (B) real initiator vs scripted acceptor.
@@ -439,6 +491,7 @@ async fn scenario_alice(script: &[Choice], variant: u8, hold: bool, deadline: Du
                     Some(encode(Frame::Abort { reason: AbortReason::InternalServerError }))
                 }
                 Choice::Garbage => Some(vec![0, 0, 0, 5, 0xff, 0xff, 0xff, 0xff, 0xff]),
+                Choice::ShortIds => Some(short_id_frame(false)),
                 Choice::Oversized => {
                     Some(((verif_codec::MAX_MESSAGE_SIZE as u32) + 1).to_be_bytes().to_vec())
                 }
@@ -492,6 +545,7 @@ async fn scenario_alice(script: &[Choice], variant: u8, hold: bool, deadline: Du
             }
         },
     }
+    obs.actor_dead = !actor_alive(&handle).await;
     let _ = handle.shutdown().await;
     obs
 }
@@ -684,6 +738,9 @@ fn judge(obs: &Observed, what: &str) -> Vec<(&'static str, Value, String)> {
     if obs.store_changed_on_reject {
         bad.push(("declined_request_changes_nothing", json!({}), format!("{what}: the acceptor's store changed although the request was declined")));
     }
+    if obs.actor_dead {
+        bad.push(("store_actor_survives_the_session", json!({}), format!("{what}: the session returned ({}), but afterwards the store actor no longer answers (its thread died while processing a frame of the peer)", obs.sut_result)));
+    }
     if obs.counters_mirror == Some(false) {
         bad.push(("counters_mirror_on_success", json!({}), format!("{what}: sent/received counters do not mirror")));
     }
@@ -782,7 +839,7 @@ fn one(report: &mut Report, case: Case, nontrivial: bool, ordinal: u64) {
 fn run(ctx: &Ctx, report: &mut Report) {
     crate::util::silence_panics();
     let mut ordinal = 0u64;
-    let depth = if ctx.quick() { 3 } else { 4 };
+    let depth = if ctx.quick() { 3 } else { 5 };
     // (A)
     for d in 1..=depth {
         for_each_sequence(ALICE_MENU.len(), d, |seq| {
@@ -804,7 +861,7 @@ fn run(ctx: &Ctx, report: &mut Report) {
                 // last frame that is an error for it
                 let last = *script.last().unwrap();
                 let ends_by_itself = accept != Accept::Allow
-                    || matches!(last, Choice::Garbage | Choice::Oversized | Choice::AbortNotFound | Choice::AbortAlreadySyncing | Choice::AbortInternal)
+                    || matches!(last, Choice::Garbage | Choice::ShortIds | Choice::Oversized | Choice::AbortNotFound | Choice::AbortAlreadySyncing | Choice::AbortInternal)
                     || (last == Choice::Init && script.len() >= 2 && script[..script.len() - 1].contains(&Choice::Correct))
                     || (last == Choice::SyncNow && !script.contains(&Choice::Correct) && !script.contains(&Choice::Init));
                 if ends_by_itself && script.len() <= 2 {
@@ -834,7 +891,7 @@ fn run(ctx: &Ctx, report: &mut Report) {
             let script: Vec<Choice> = seq.iter().map(|&i| BOB_MENU[i]).collect();
             let nt = script.iter().any(|c| *c != Choice::Correct);
             let last = *script.last().unwrap();
-            let ends_by_itself = matches!(last, Choice::Garbage | Choice::Oversized | Choice::AbortNotFound | Choice::AbortAlreadySyncing | Choice::AbortInternal | Choice::Init);
+            let ends_by_itself = matches!(last, Choice::Garbage | Choice::ShortIds | Choice::Oversized | Choice::AbortNotFound | Choice::AbortAlreadySyncing | Choice::AbortInternal | Choice::Init);
             one(report, Case::Alice { script: script.clone(), variant: (ordinal % 4) as u8, hold: false }, nt, ordinal);
             if ends_by_itself && script.len() <= 2 {
                 one(report, Case::Alice { script, variant: (ordinal % 4) as u8, hold: true }, true, ordinal);
